@@ -14,7 +14,8 @@ CODE = ["yowsup/layers/coder/encoder.py:WriteEncoder.*", "yowsup/layers/coder/de
         "yowsup/layers/coder/tokendictionary.py:TokenDictionary.getIndex/getToken", "yowsup/layers/coder/layer.py:YowCoderLayer.send/receive",
         "yowsup/structs/protocoltreenode.py:ProtocolTreeNode.__init__/__eq__"]
 BOUNDS = {
-    "quick": "payload length L in [0,2^24) at 4 positions; one unconstrained Latin-1 string slot of n<=3 chars (7 slot kinds); digit/nibble/hex "
+    "quick": "[+ after-rejected-stanza: 3 kinds of refused stanza x slot {val, tag, data} with 1 unconstrained character] " 
+                   "payload length L in [0,2^24) at 4 positions; one unconstrained Latin-1 string slot of n<=3 chars (7 slot kinds); digit/nibble/hex "
              "strings of lengths {1,2,3,4,126,127,128,129,254,255}; all 1257 dictionary tokens; list sizes {0,1,127,128,255,256,257}; integer kernels over their full ranges",
     "thorough": "as quick with n<=4 for every slot (n<=5 for tag/val) and digit/nibble/hex strings of every length 1..255"}
 OUTSIDE = ["unconstrained strings longer than the stated n (their size handling is covered by the class-constrained strings of every length and the payload-length harness)",
